@@ -248,14 +248,14 @@ def run(ctx):
         cov["source_worker_tests_command_timeout_itself"] = selfcheck
         stopwdog = T.detect_stopwdog(exe, ctx.scratch)
         cov["source_dsh_stops_watchdog_before_return"] = stopwdog
-        # F07-TEARDOWN-WAIT (a) repaired?  The Timed LTS mirrors the tree as it is (the worker goes straight into
-        # rcmd_destroy); on a tree in which it first waits a grace period and sends SIGKILL, runs in which a target is
-        # given up on are judged by the monitors only (the acceptor knows no such wait)
+        # F07-TEARDOWN-WAIT (a) repaired?  Probed by behaviour; the Timed LTS has the switch `killAfter` (a worker that
+        # gives its target up waits one watchdog period and sends SIGKILL before rcmd_destroy) and the acceptor runs
+        # the variant the tree shows
         ctx.killafter = T.detect_killafter(exe, ctx.scratch)
         cov["source_worker_kills_command_it_gave_up_on"] = ctx.killafter
         ctx.log("constructs of the tree (by behaviour): wait-for-room = %s, worker tests the command timeout itself = %s, "
                 "dsh() stops the watchdog before it returns = %s" % (variant, selfcheck, stopwdog))
-        variant = (variant, selfcheck, stopwdog)
+        variant = (variant, selfcheck, stopwdog, ctx.killafter)
         if ctx.replay:
             rp = json.load(open(ctx.replay))
             case = (rp.get("case") or {}).get("case")
@@ -268,7 +268,7 @@ def run(ctx):
                 for sig, what in (failfast_offenders(res) if case.get("failfast") else T.offenders(res)):
                     ctx.log("replay: %s %s" % (sig, what))
                     ctx.offender(sig, what, T.pack(res))
-                if case.get("yield") == "fan" and res["crash"] is None and not (ctx.killafter and T.gave_up(res)):
+                if case.get("yield") == "fan" and res["crash"] is None:
                     bad = T.accept_all(ctx, [T.project(res, *variant)])[0]
                     if bad:
                         ctx.disagreement("Timed LTS vs dsh.c", "line %d `%s`: %s" % bad, T.pack(res))
@@ -370,9 +370,8 @@ def explore(ctx, exe_san, exe, variant, cov, dist):
     def consume(results):
         fan = [r for r in results if r["case"]["yield"] == "fan" and r["crash"] is None and not r["bug"]]
         if getattr(ctx, "killafter", False):
-            skipped = [r for r in fan if T.gave_up(r)]
-            dist["acceptor_skipped_teardown_repaired"] = dist.get("acceptor_skipped_teardown_repaired", 0) + len(skipped)
-            fan = [r for r in fan if not T.gave_up(r)]
+            dist["given_up_runs_through_killAfter_variant"] = dist.get("given_up_runs_through_killAfter_variant", 0) + \
+                sum(1 for r in fan if T.gave_up(r))
         batches = [T.project(r, *variant) for r in fan]
         verdicts = T.accept_all(ctx, batches) if batches else []
         for r, b, bad in zip(fan, batches, verdicts):
@@ -452,8 +451,7 @@ def explore(ctx, exe_san, exe, variant, cov, dist):
     ff = T.run_cases(exe_san, failfast_cases(), ctx.scratch)
     dist["failfast_runs"] = len(ff)
     dist["failfast_exits"] = sum(1 for r in ff if (r["M"] or {}).get("status") == "exit")
-    okff = [r for r in ff if r["crash"] is None and not r["bug"] and
-            not (getattr(ctx, "killafter", False) and T.gave_up(r))]
+    okff = [r for r in ff if r["crash"] is None and not r["bug"]]
     for r, bad in zip(okff, T.accept_all(ctx, [T.project(r, *variant) for r in okff]) if okff else []):
         if bad is not None:
             dist["rejects"] += 1
